@@ -91,21 +91,29 @@ func runC03(c *an.Ctx) {
 	}
 	// (1) ChangeHash
 	if ch := mustFunc(c, odb+".(*OverlayDB).ChangeHash"); ch != nil {
+		// ChangeHash and the private helpers it is split into
 		var hasher ssa.Value
-		for _, k := range an.Calls(ch) {
-			if f := k.Common().StaticCallee(); f != nil && f.String() == "crypto/sha256.New" {
-				hasher = k.Value()
+		for _, g := range an.InlineReach(ch) {
+			for _, k := range an.Calls(g) {
+				if f := k.Common().StaticCallee(); f != nil && f.String() == "crypto/sha256.New" {
+					hasher = k.Value()
+				}
 			}
 		}
 		c.Check(hasher != nil, "changehash|ChangeHash|hasher", "ChangeHash hashes with a hasher it creates itself", c.P.Rel(ch.Pos()), "no sha256.New() in ChangeHash")
-		fes := an.CallsTo(ch, fe)
-		okFE := len(fes) == 1 && onMemdb(fes[0])
+		fes := an.CallsToReach(ch, fe)
+		okFE := len(fes) == 1 && (onMemdb(fes[0]) || fieldOfLoad(an.ResolveActual(ch, recvOf(fes[0].Common()))) == memField)
 		c.Check(okFE, "changehash|ChangeHash|enumerates-memdb", "ChangeHash enumerates self.memdb through MemDB.ForEach exactly once", c.P.Rel(ch.Pos()), fmt.Sprintf("%d ForEach calls on self.memdb", len(fes)))
 		// hasher writes: only in the callback, key then value; none in ChangeHash itself
 		direct := 0
-		for _, k := range an.Calls(ch) {
-			if k.Common().IsInvoke() && k.Common().Method.Name() == "Write" {
-				direct++
+		for _, g := range an.InlineReach(ch) {
+			if g.Parent() != nil {
+				continue // the enumeration callback, judged below
+			}
+			for _, k := range an.Calls(g) {
+				if k.Common().IsInvoke() && k.Common().Method.Name() == "Write" {
+					direct++
+				}
 			}
 		}
 		c.Check(direct == 0, "changehash|ChangeHash|no-direct-writes", "nothing but the enumeration callback feeds the hasher", c.P.Rel(ch.Pos()), fmt.Sprintf("%d hasher writes outside the callback", direct))
@@ -219,23 +227,27 @@ func runC03(c *an.Ctx) {
 			c.Check(len(exact) == 1 && v.Holds && v.ActionSites >= 2, "inplace|MemDB.Put|no-new-node-on-overwrite", "when the key is already present, Put creates no node and does not change the entry count (one enumeration entry per key, whatever the history)", c.P.Rel(put.Pos()),
 				fmt.Sprintf("%d node-creating stores; %s", v.ActionSites, v.Witness))
 			// a delete of an absent key still records a tombstone: with exact=false and len(value)==0 a node is created
-			for _, val := range an.FindValues(put, func(x ssa.Value) bool {
-				_, ok := lenCmpZero(x, func(a ssa.Value) bool { return a == ssa.Value(put.Params[2]) })
-				return ok
-			}) {
-				eq, _ := lenCmpZero(val, func(a ssa.Value) bool { return true })
-				if eq {
-					absent[val] = an.ATrue
-				} else {
-					absent[val] = an.AFalse
+			for _, g := range an.InlineReach(put) {
+				for _, val := range an.FindValues(g, func(x ssa.Value) bool {
+					_, ok := lenCmpZero(x, func(a ssa.Value) bool { return an.ResolveActual(put, a) == ssa.Value(put.Params[2]) })
+					return ok
+				}) {
+					eq, _ := lenCmpZero(val, func(a ssa.Value) bool { return true })
+					if eq {
+						absent[val] = an.ATrue
+					} else {
+						absent[val] = an.AFalse
+					}
 				}
 			}
 			r := (&an.Query{Fn: put, Assume: absent}).Run()
 			created := false
-			for _, b := range put.Blocks {
-				for _, in := range b.Instrs {
-					if isNew(in) && r.Reaches(in) {
-						created = true
+			for _, g := range an.InlineReach(put) {
+				for _, b := range g.Blocks {
+					for _, in := range b.Instrs {
+						if isNew(in) && r.Reaches(in) {
+							created = true
+						}
 					}
 				}
 			}
@@ -280,7 +292,37 @@ func runC03(c *an.Ctx) {
 							switch v := x.Val.(type) {
 							case *ssa.Call:
 								if bi, isB := v.Call.Value.(*ssa.Builtin); isB && bi.Name() == "append" {
-									ok = fromKV(v.Call.Args[0]) || !fromKV(v.Call.Args[0]) && an.FreshObject(v.Call.Args[0]) != nil || isFreshSlice(v.Call.Args[0])
+									// append to the whole buffer (or to a chain of such appends); append(kvData[:o], ...) would
+									// overwrite what is stored after o
+									var whole func(a ssa.Value, d int) bool
+									whole = func(a ssa.Value, d int) bool {
+										if d > 6 {
+											return false
+										}
+										if fieldOfLoad(a) == kv {
+											return true
+										}
+										switch y := a.(type) {
+										case *ssa.Slice:
+											return y.Low == nil && y.High == nil && y.Max == nil && whole(y.X, d+1)
+										case *ssa.Call:
+											if bi2, isB2 := y.Call.Value.(*ssa.Builtin); isB2 && bi2.Name() == "append" {
+												return whole(y.Call.Args[0], d+1)
+											}
+										case *ssa.Phi:
+											for _, e := range y.Edges {
+												if !whole(e, d+1) {
+													return false
+												}
+											}
+											return len(y.Edges) > 0
+										}
+										return false
+									}
+									ok = whole(v.Call.Args[0], 0) || !fromKV(v.Call.Args[0]) && an.FreshObject(v.Call.Args[0]) != nil || isFreshSlice(v.Call.Args[0])
+									if !ok && fromKV(v.Call.Args[0]) {
+										bad = "append to a truncated kvData (kvData[:o]) overwrites stored bytes at " + c.P.Rel(x.Pos())
+									}
 								}
 							case *ssa.Slice:
 								// kvData = kvData[:0] (reset for reuse)
@@ -383,6 +425,8 @@ func runC04(c *an.Ctx) {
 	if !controlGuard(c) {
 		return
 	}
+	// (0) what an iterator is created with does not alias the cache's scratch key
+	scratchConfinement(c)
 	// (1) tombstone routing at every ForEach consumer
 	n := 0
 	for cb, site := range forEachClosures(c) {
